@@ -94,10 +94,10 @@ theorem SubAck.props_eq (p : SubAck) (h : UpsInRange p.userProps) : p.props = pr
     simp [SubAck.props, encFields, SubAck.fields]
   rw [this, encFields_eq, encUserProps_eq _ (ups_keys _ h), ← propBytes_append]; rfl
 
-theorem E_suback (k : Nat) (p : SubAck) (h : p.InDomain k) :
-    (SubAck.abs k p).Legal ∧ (SubAck.abs k p).unparse = p.encode ∧ (SubAck.abs k p).kind = k
+theorem E_suback_L (k : Nat) (p : SubAck) (h : p.InDomainL k) :
+    (SubAck.abs k p).LegalL ∧ (SubAck.abs k p).unparse = p.encode ∧ (SubAck.abs k p).kind = k
     ∧ (SubAck.abs k p).view = p.view ∧ (SubAck.abs k p).firstByte = p.fixed := by
-  obtain ⟨hk, hfix, hr, hu, hne, hlen⟩ := h
+  obtain ⟨hk, hfix, hr, hu, hlen⟩ := h
   have hprops := p.props_eq hu
   have hleg : propsLegal k p.occs = true := by
     apply occs_legalK k p.fields p.userProps [(0x1f, .bin)] rfl
@@ -111,10 +111,8 @@ theorem E_suback (k : Nat) (p : SubAck) (h : p.InDomain k) :
     simp only [SubAck.abs, SPacket.body, SubAck.body, hprops, propSection]
     simp
   refine ⟨⟨?_, by rw [hbody]; exact hlen⟩, ?_, rfl, ?_, by simp [SubAck.abs, SPacket.firstByte, hfix]⟩
-  · simp only [SubAck.abs, SPacket.legal, hleg, Bool.and_eq_true, Bool.or_eq_true, beq_iff_eq, Bool.true_and,
-      Bool.not_eq_true', Bool.and_true]
-    refine ⟨hk, ?_⟩
-    cases hc : p.reasonCodes <;> simp_all
+  · simp only [SubAck.abs, SPacket.legalL, hleg, Bool.and_eq_true, Bool.or_eq_true, beq_iff_eq, Bool.and_true]
+    exact hk
   · simp only [SPacket.unparse, Spec.mkFrame, hbody, SubAck.encode, frame]
     simp [SubAck.abs, SPacket.firstByte, hfix]
   · simp only [SubAck.abs, SPacket.view, SubAck.view]
@@ -123,6 +121,16 @@ theorem E_suback (k : Nat) (p : SubAck) (h : p.InDomain k) :
     have hups := userPropsOf_occsK p.fields p.userProps [(0x1f, .bin)] rfl (by decide)
     simp only [SubAck.occs]
     rw [hv, hups]; rfl
+
+theorem E_suback (k : Nat) (p : SubAck) (h : p.InDomain k) :
+    (SubAck.abs k p).Legal ∧ (SubAck.abs k p).unparse = p.encode ∧ (SubAck.abs k p).kind = k
+    ∧ (SubAck.abs k p).view = p.view ∧ (SubAck.abs k p).firstByte = p.fixed := by
+  obtain ⟨hk, hfix, hr, hu, hne, hlen⟩ := h
+  obtain ⟨⟨hl, hbl⟩, h2, h3, h4, h5⟩ := E_suback_L k p ⟨hk, hfix, hr, hu, hlen⟩
+  refine ⟨⟨?_, hbl⟩, h2, h3, h4, h5⟩
+  simp only [SubAck.abs, SPacket.legal, SPacket.legalL, Bool.and_eq_true] at hl ⊢
+  refine ⟨hl, ?_⟩
+  cases hc : p.reasonCodes <;> simp_all
 
 /-! ## PINGREQ, PINGRESP -/
 
@@ -281,8 +289,8 @@ theorem subIDLast_ups (ps : List PropOcc) (ups : UserProps) : Spec.subIDLast (ps
   | nil => rfl
   | cons kv ups ih => simp only [upOccs, List.map_cons, List.foldl_cons] at ih ⊢; exact ih cur
 
-theorem E_subscribe (p : Subscribe) (h : p.InDomain) :
-    p.abs.Legal ∧ p.abs.unparse = p.encode ∧ p.abs.view = (Packet.subscribe p).view := by
+theorem E_subscribe_L (p : Subscribe) (h : p.InDomainL) :
+    p.abs.LegalL ∧ p.abs.unparse = p.encode ∧ p.abs.view = (Packet.subscribe p).view := by
   obtain ⟨hfix, hsub, hu, hne, hfs, hlen⟩ := h
   have hprops := p.props_eq hu
   have hleg : propsLegal 8 p.occs = true := by
@@ -301,15 +309,13 @@ theorem E_subscribe (p : Subscribe) (h : p.InDomain) :
     simp only [Subscribe.abs, SPacket.body, Subscribe.body, hprops, propSection, hpay]
     simp
   refine ⟨⟨?_, by rw [hbody]; exact hlen⟩, ?_, ?_⟩
-  · simp only [Subscribe.abs, SPacket.legal, hleg, Bool.true_and, Bool.and_eq_true, List.all_eq_true]
+  · simp only [Subscribe.abs, SPacket.legalL, hleg, Bool.true_and, Bool.and_eq_true, List.all_eq_true]
     constructor
     · cases hf : p.filters <;> simp_all
     · intro f hf
       simp only [List.mem_map] at hf
       obtain ⟨g, hg, rfl⟩ := hf
-      obtain ⟨h1, h2, h3, h4⟩ := hfs g hg
-      simp only [Spec.SPacket.strOK, Bool.and_eq_true, decide_eq_true_eq, beq_iff_eq, bne_iff_ne, ne_eq]
-      exact ⟨⟨⟨h1, h2⟩, h3⟩, h4⟩
+      simpa [Spec.SPacket.strOK, strOK] using hfs g hg
   · simp only [SPacket.unparse, Spec.mkFrame, hbody, Subscribe.encode, frame]
     simp [Subscribe.abs, SPacket.firstByte, hfix]
   · simp only [Subscribe.abs, SPacket.view, Packet.view, Subscribe.view]
@@ -329,6 +335,21 @@ theorem E_subscribe (p : Subscribe) (h : p.InDomain) :
         simp only [this, Spec.subIDLast, List.foldl_cons, List.foldl_nil, if_true]
     rw [hups, hsid]
     cases hs : p.subscriptionID <;> simp [Subscribe.subscriptionIDInt, hs]
+
+theorem E_subscribe (p : Subscribe) (h : p.InDomain) :
+    p.abs.Legal ∧ p.abs.unparse = p.encode ∧ p.abs.view = (Packet.subscribe p).view := by
+  obtain ⟨hfix, hsub, hu, hne, hfs, hlen⟩ := h
+  obtain ⟨⟨hl, hbl⟩, h2, h3⟩ := E_subscribe_L p ⟨hfix, hsub, hu, hne, fun f hf => (hfs f hf).1, hlen⟩
+  refine ⟨⟨?_, hbl⟩, h2, h3⟩
+  simp only [Subscribe.abs, SPacket.legal, SPacket.legalL, Bool.and_eq_true, List.all_eq_true] at hl ⊢
+  refine ⟨hl.1, ?_⟩
+  intro f hf
+  have hs := hl.2 f hf
+  simp only [List.mem_map] at hf
+  obtain ⟨g, hg, rfl⟩ := hf
+  obtain ⟨_, b2, b3, b4⟩ := hfs g hg
+  simp only [Bool.and_eq_true, beq_iff_eq, bne_iff_ne, ne_eq]
+  exact ⟨⟨⟨hs, b2⟩, b3⟩, b4⟩
 
 /-! ## UNSUBSCRIBE -/
 
